@@ -101,7 +101,9 @@ def bylevel_rules(ctx):
               "common face) give the same 2D footprint twice, i.e. overlapping boxes in the 2D plotfile",
               where=loc(fi, lv[0]) if lv else None)
     # interpolation per level
-    ienv = local_env(fi.node)
+    e = {norm(t.targets[0]): t for t in walk_no_nested(fi.node) if isinstance(t, ast.Assign)}
+    tgt = e.get("data[bint]")
+    ienv = rules.local_env_at(fi.node, tgt.value if tgt else None)
     ienv["bint"] = None
     e = {norm(t.targets[0]): t for t in walk_no_nested(fi.node) if isinstance(t, ast.Assign)}
     L, R = A("left[lv]['data'][i][bint]"), A("right[lv]['data'][i][bint]")
